@@ -152,6 +152,21 @@ def wide_arch(ctx, n, d, reps, seed, rs, n_draws):
     return True
 
 
+def grid_case(ctx, n, d, reps, seed, classes):
+    """parameters on a coarse grid (every logit / weight an integer in -2..2): exact ties between the two values of a leaf (p = 1/2,
+    what a zero-initialised or freshly reset Bernoulli layer holds) and between mixture components — the normalisation, marginal and
+    MPE / sample contract of the property do not depend on the parameters being in general position"""
+    rs = np.random.RandomState(seed)
+    rep = dict(kind='c16-grid', features=n, depth=d, repetitions=reps, seed=seed, classes=classes)
+    ctx.case('grid', nontrivial_key=('grid', n, d, reps, seed), sample=rep)
+    ctx.count('grid-parameter-cases')
+    torch.manual_seed(seed)
+    model = BernoulliRatSpn(n, out_classes=classes, rg_depth=d, rg_repetitions=reps, rg_batch=2, rg_sum=2, random_state=np.random.RandomState(seed))
+    for p_ in model.parameters():
+        p_.data.copy_(torch.tensor(rs.randint(-2, 3, size=tuple(p_.shape))).float())
+    return impl_oracle(ctx, model, n, classes, rs, rep)
+
+
 def run(ctx):
     quick = ctx.tier == 'quick'
     cfgs = []
@@ -223,6 +238,12 @@ def run(ctx):
                     if any(abs(g - x) > 1e-4 * max(abs(x), 1e-300) + 1e-9 for g, x in zip(got, e)):
                         ctx.violation('c16-forward-vs-model', f'forward value {e} vs unrolled circuit {got} on {o["row"]} (features={n}, depth={d})', replay=rep, found_input=False)
                         break
+        if ctx.n_new(with_input_only=True) >= 3:
+            return
+    for k in range(6 if quick else 60):
+        rs = np.random.RandomState(np_seed(ctx.sub_rng('grid', k)))
+        n = int(rs.randint(2, 9)); d = int(rs.randint(1, int(math.floor(math.log2(n))) + 1))
+        grid_case(ctx, n, d, int(rs.randint(1, 3)), int(rs.randint(10 ** 6)), int(rs.randint(1, 3)))
         if ctx.n_new(with_input_only=True) >= 3:
             return
     # wide architectures (> 16 padded features per repetition)
@@ -304,6 +325,16 @@ def replay(rep):
             def violation(self, fp, what, **k): self.bad.append(what); print(what)
         c = _C()
         wide_arch(c, r['features'], r['depth'], r['repetitions'], r['seed'], np.random.RandomState(1), 60000)
+        return not c.bad
+    if r['kind'] == 'c16-grid':
+        class _C:
+            tier = 'quick'; extra = {}
+            def __init__(self): self.bad = []
+            def case(self, *a, **k): pass
+            def count(self, *a, **k): pass
+            def violation(self, fp, what, **k): self.bad.append(what); print(what)
+        c = _C()
+        grid_case(c, r['features'], r['depth'], r['repetitions'], r['seed'], r['classes'])
         return not c.bad
     if r['kind'] != 'c16':
         return True
